@@ -18,7 +18,9 @@ pub const ATTRS: [&str; 16] = [
 
 pub const PLAIN_ATTRS: [&str; 6] = ["x", "y", "z", "name", "principal", "w"];
 
-pub const EXOTIC_ATTRS: [&str; 6] = ["__extn", "__expr", "\u{3c0}", "a\"b", "else", "context"];
+/// (includes names that start like an ASCII identifier and continue with non-ASCII word characters:
+/// they are not identifiers for the lexer, so printers must quote them)
+pub const EXOTIC_ATTRS: [&str; 10] = ["__extn", "__expr", "\u{3c0}", "a\"b", "else", "context", "gr\u{f6}\u{df}e", "na\u{ef}ve", "_\u{540d}\u{524d}", "a\u{3c0}"];
 
 pub const LONGS: [i64; 17] = [
     0,
